@@ -777,6 +777,16 @@ def check_c04(tr):
                         f.append({'kind': 'transaction-kept-after-outcome', 'req': no, 'state': state, 'armed': armed})
     for (pos, e) in unmatched:
         f.append({'kind': 'outcome-without-request', 'node': e[2], 'src': e[3], 'invoke': e[5], 'type': e[4]})
+    # bounded time: when a time-out is processed no other transaction's timer is overdue (armed for an earlier instant)
+    snap = ()
+    for e in tr.events:
+        if e[0] == 'state':
+            snap = e[2]
+        elif e[0] == 'fire':
+            over = [x for x in snap if x[5] != -1 and x[5] < e[1]]
+            if over:
+                f.append({'kind': 'timer-overdue', 't': e[1], 'fired': list(e[2:7]), 'overdue': [list(x) for x in over[:3]]})
+                break
     # a transaction that left its table keeps no timer
     for e in tr.events:
         if e[0] == 'state' and len(e) > 3 and e[3]:
